@@ -163,10 +163,10 @@ for mod in ("readlink", "listxattr"):
         reg_op(OPS_A, mod, v, "request bytes; reply payload of 0/3/8 symbolic bytes (length concrete per instance) or a count", quick=False)
 
 OPS_B = "harness/model/srvsync__ops_b.rs"
-NVARIANTS = ["c01", "c02", "c02_l8", "c01_lenlow", "c01_lenhigh", "c01_noname", "c01_badname_tiny",
+NVARIANTS = ["c01", "c02", "c02_l8", "c01_lenhigh", "c01_noname", "c01_badname_tiny",
              "c01_ans", "c03", "c01_nospace", "c01_tiny", "c01_devfail"]
 QUICK_B = {("lookup", "c01"), ("lookup", "c02"), ("lookup", "c03"), ("create", "c01_ans"), ("create", "c02"), ("create", "c03"),
-           ("rename2", "c02"), ("symlink", "c01"), ("mknod", "c03"), ("unlink", "c01_lenlow"), ("mkdir", "c01_lenhigh")}
+           ("rename2", "c02"), ("symlink", "c01"), ("mknod", "c03"), ("mkdir", "c01_lenhigh")}
 NDESC = ("structure bytes symbolic; name area 4 (c02_l8: 8) bytes: symbolic (any content: names of length 0..3, interior/missing NUL) "
          "with a plain success answer in c01/c02/c01_len*/c01_noname/c01_badname_tiny, fixed name with a symbolic answer in c01_ans/c03/"
          "c01_nospace/c01_tiny/c01_devfail (the product exceeded 16 GB); in_header.len concrete per instance")
@@ -177,11 +177,15 @@ for op in ["lookup", "mknod", "mkdir", "unlink", "rmdir", "link", "create", "rem
 for v in ["c03_minor3", "c03_minor4"]:
     reg(OPS_B, "lookup_neg::" + v, ["C03"], tier="quick", flavour="model", timeout=420, support=MSUP, cost=2,
         what="LOOKUP negative-entry rule for protocol minor %s" % v[-1], bounds="entry fully symbolic; minor concrete", functions=SRV_FUNCS + ["Server.vers (ArcSwap)"], stubs=SRV_STUBS, role="lookup_neg:C03")
-for v in ["c01", "c02", "c02_l8", "c01_lenlow", "c01_lenhigh", "c01_ans", "c03", "c03_len0", "c03_len8", "c03_count", "c01_nospace", "c01_devfail"]:
+for v in ["c01", "c02", "c02_l8", "c01_lenhigh", "c01_ans", "c03", "c03_len0", "c03_len8", "c03_count", "c01_nospace", "c01_devfail"]:
     reg_op(OPS_B, "getxattr_h", v, "structure + 4 (8) name bytes; value of 0/3/8 symbolic bytes (length concrete per instance) or a count; " + NDESC, quick=v in ("c02", "c03"))
-for v in ["c01", "c02", "c02_l8", "c01_lenlow", "c01_lenhigh", "c01_ans", "c03", "c01_tiny", "c01_devfail"]:
+for v in ["c01", "c02", "c02_l8", "c01_lenhigh", "c01_ans", "c03", "c01_tiny", "c01_devfail"]:
     reg_op(OPS_B, "setxattr_h", v, "structure + 5 (8) bytes of name NUL value (every split); " + NDESC, quick=v in ("c01", "c02"))
 
+for fn in ("c01_get_message_body_underflow", "c01_get_message_body_exact"):
+    reg(OPS_B, fn, ["C01"], tier="quick", flavour="model", timeout=600, support=MSUP, cost=1,
+        what="ServerUtil::get_message_body: header length vs fixed part", bounds="in_header.len over all u32 below 40+sub (sub <= 4096) / consistent lengths with <= 8 body bytes",
+        functions=["ServerUtil::get_message_body"], stubs=[STUB_FMT], role=fn)
 OPS_C = "harness/model/srvsync__ops_c.rs"
 C_FAM = {
  "read_h": ["c01", "c02", "c03", "c03_len3", "c01_trunc", "c01_nospace", "c01_hdronly", "c01_tiny", "c01_devfail"],
@@ -277,7 +281,7 @@ for v in ("c07_cross_rename_ab", "c07_cross_link_ba", "c07_same_rename_aa", "c07
 reg_vfs("c07_root_mount", ["C07"], quick=False, what="mount on the VFS root", bounds="concrete", functions=["Vfs::get_real_rootfs root special case", "Vfs::access"])
 for i, op in enumerate(["lookup", "getattr", "setattr", "mkdir", "mknod", "symlink", "link", "create", "readdirplus"]):
     for v in ("a", "b"):
-        reg_vfs("c14_path_%s_%s" % (op, v), ["C14"], quick=(op, v) in (("lookup", "a"), ("setattr", "a"), ("setattr", "b"), ("readdirplus", "b"), ("link", "a"), ("getattr", "b")),
+        reg_vfs("c14_path_%s_%s" % (op, v), ["C14"], quick=(op, v) in (("lookup", "a"), ("setattr", "a"), ("setattr", "b"), ("readdirplus", "b"), ("mkdir", "a"), ("getattr", "b")),
                 what="%s through backend %s (A has its own mapping or none, B falls back to the global one)" % (op, v),
                 bounds="global and per-mount mapping (or none) symbolic; caller uid/gid, owner ids in the request and in the backend's answer symbolic; mount concrete",
                 functions=["Vfs::%s" % op, "Vfs::id_remap_with_nodeid", "get_effective_id_mapping", "remap_id", "convert_entry/convert_attr/remap_attr_id"])
@@ -316,11 +320,9 @@ for fn, q in [("c04_consume_8_8", True), ("c04_consume_1_8", True), ("c04_consum
     reg(IOB, fn, ["C04"], flavour="real", tier="quick" if q else "thorough", timeout=900, mem=16,
         what="IoBuffers consume geometry/accounting on two segments (%s)" % fn[12:], bounds="segment lengths concrete; count, consumed k and consumer failure symbolic",
         functions=IOB_FUNCS, stubs=[STUB_FMT], role=fn)
-for fn, q in [("c04_split_8_8_at0", True), ("c04_split_8_8_at3", False), ("c04_split_8_8_at8", True), ("c04_split_8_8_at11", False), ("c04_split_8_8_at16", False),
-              ("c04_split_8_8_at17", True), ("c04_split_1_8_at1", False)]:
-    reg(IOB, fn, ["C04"], flavour="real", tier="quick" if q else "thorough", timeout=900, mem=24,
-        what="IoBuffers::split_at at a concrete offset", bounds="two 8-byte segments (or 1+8); offset concrete per instance", functions=IOB_FUNCS, stubs=[STUB_FMT], role=fn)
-for fn, q in [("c17_dirty_write_8_8", True), ("c17_dirty_write_3_8", True), ("c17_dirty_read_8_8", True), ("c17_dirty_split_at3", False), ("c17_dirty_split_at8", True), ("c17_dirty_split_at11", False)]:
+# c04_split_* and c17_dirty_split_* exist in the harness file but are NOT registered: IoBuffers::split_at
+# (VecDeque::split_off + pop/push) ran out of memory at 24 GB for every offset tried (see DESIGN.md).
+for fn, q in [("c17_dirty_write_8_8", True), ("c17_dirty_write_3_8", True), ("c17_dirty_read_8_8", True)]:
     reg(IOB, fn, ["C17"], flavour="real", tier="quick" if q else "thorough", timeout=900, mem=24,
         what="dirty marking of IoBuffers::consume with a recording BitmapSlice", bounds="two segments with distinct bitmap bases; count, written k, failure and the probed guest byte symbolic",
         functions=IOB_FUNCS + ["vm_memory::Bitmap::mark_dirty via VolatileSlice::bitmap()"], stubs=[STUB_FMT, "RecBitmap: harness BitmapSlice that records mark_dirty(offset,len) relative to a base"], role=fn)
